@@ -1932,6 +1932,630 @@ func concurrencyCampaign(c *runner, rng *rand.Rand, procs, rounds int) {
 	}
 }
 
+// --- one lookup, one list version: lookups that overlap resets ---
+
+// snapPlan is the input of the snapshot campaign: versions of one list that
+// differ in how many names they have under each of a set of hash prefixes (none,
+// one, part of a bucket family, the whole family, duplicated lines; the whole
+// list empty, padded with other names, refused by the scanner), queries of one to
+// several dozen prefixes (repeated, never listed, legacy spelling), and names to
+// look up.  A pure function of the seed and the family table.
+type snapPlan struct {
+	texts   []string
+	bad     []bool                // the scanner refuses the text: the version before it stays in force
+	listed  []map[string]int      // the oracle's reading of each text
+	byPref  []map[string][]string // version -> prefix -> digests, one per list line
+	queries [][]string            // prefix lists for Storage.Hashes
+	qnames  []string              // question names for Matcher.MatchByPrefix and the TXT path
+	probes  []string              // names for Storage.Matches
+}
+
+// snapSuffix is the TXT suffix served from storage 0.
+var snapSuffix = txtSuffixes[0]
+
+func newSnapPlan(seed uint64, fams []family) (p *snapPlan) {
+	rng := rand.New(rand.NewPCG(seed, 0x5a9))
+	p = &snapPlan{}
+	nFam := []int{1, 2, 4, 8, 16, 32, 44}[rng.IntN(7)]
+	idx := rng.Perm(len(fams))[:nFam+2]
+	in, out := idx[:nFam], idx[nFam:]
+	var prefs, absent []string
+	for _, f := range in {
+		prefs = append(prefs, fams[f].prefix)
+	}
+	for _, f := range out {
+		absent = append(absent, fams[f].prefix)
+		p.probes = append(p.probes, fams[f].names[0])
+	}
+
+	nVer := 3 + rng.IntN(5)
+	for v := 0; v < nVer; v++ {
+		var lines []string
+		profile := 0
+		if v > 0 {
+			profile = 1 + rng.IntN(6)
+		}
+		shrunk := rng.IntN(nFam)
+		for k, f := range in {
+			names := append([]string(nil), fams[f].names...)
+			rng.Shuffle(len(names), func(i, j int) { names[i], names[j] = names[j], names[i] })
+			n := len(names)
+			switch profile {
+			case 1: // nothing but comments
+				n = 0
+			case 2:
+				n = 1
+			case 3:
+				n = rng.IntN(len(names) + 1)
+			case 4:
+				n *= rng.IntN(2)
+			case 5: // the widest version but for one name of one family
+				if k == shrunk {
+					n--
+				}
+			case 6:
+				n -= 1 + rng.IntN(2)
+			}
+			lines = append(lines, names[:n]...)
+			if n > 0 && rng.IntN(5) == 0 {
+				lines = append(lines, names[rng.IntN(n)])
+			}
+		}
+		for k := []int{0, 0, 30, 300}[rng.IntN(4)]; k > 0; k-- {
+			lines = append(lines, fmt.Sprintf("pad%d-%d-%d.example.org", seed%1000, v, k))
+		}
+		for k := rng.IntN(4); k > 0; k-- {
+			lines = append(lines, []string{"", "# version " + fmt.Sprint(v), "#" + fams[in[0]].names[0]}[rng.IntN(3)])
+		}
+		rng.Shuffle(len(lines), func(i, j int) { lines[i], lines[j] = lines[j], lines[i] })
+		nl := "\n"
+		if rng.IntN(4) == 0 {
+			nl = "\r\n"
+		}
+		text := strings.Join(lines, nl)
+		if len(lines) > 0 && rng.IntN(3) > 0 {
+			text += nl
+		}
+		p.texts, p.bad = append(p.texts, text), append(p.bad, false)
+	}
+	if rng.IntN(3) == 0 {
+		// A list the scanner refuses, after some acceptable lines.
+		at := 1 + rng.IntN(nVer)
+		text := fams[out[0]].names[0] + "\n" + fams[in[0]].names[0] + "\n" + strings.Repeat("a", 65536) + "\n"
+		p.texts = append(p.texts[:at], append([]string{text}, p.texts[at:]...)...)
+		p.bad = append(p.bad[:at], append([]bool{true}, p.bad[at:]...)...)
+	}
+	for _, t := range p.texts {
+		set, _ := oracleListed(t)
+		by := map[string][]string{}
+		for n, k := range set {
+			h := fullHash(n)
+			for ; k > 0; k-- {
+				by[h[:4]] = append(by[h[:4]], h)
+			}
+		}
+		p.listed, p.byPref = append(p.listed, set), append(p.byPref, by)
+	}
+	for _, f := range in {
+		for k := 0; k < 2 && len(p.probes) < 24; k++ {
+			p.probes = append(p.probes, fams[f].names[rng.IntN(len(fams[f].names))])
+		}
+	}
+
+	pick := func(n int) (q []string) {
+		for _, i := range rng.Perm(len(prefs))[:min(n, len(prefs))] {
+			q = append(q, prefs[i])
+		}
+
+		return q
+	}
+	all := append(pick(len(prefs)), absent...)
+	rng.Shuffle(len(all), func(i, j int) { all[i], all[j] = all[j], all[i] })
+	few := pick(2 + rng.IntN(3))
+	p.queries = [][]string{
+		all,
+		pick(1),
+		few,
+		append(append([]string{absent[0]}, few...), few[0]),
+		pick((len(prefs) + 1) / 2),
+		append(append([]string(nil), all...), all...),
+	}
+	for _, q := range p.queries[:5] {
+		name, seen := "", map[string]bool{}
+		for _, pr := range q {
+			piece := pr
+			if rng.IntN(5) == 0 {
+				piece += fmt.Sprintf("%04x", rng.IntN(65536)) // legacy spelling
+			}
+			if seen[pr] || len(name)+len(piece)+1+len(snapSuffix) > 250 {
+				continue
+			}
+			seen[pr] = true
+			if name != "" {
+				name += "."
+			}
+			name += piece
+		}
+		p.qnames = append(p.qnames, name+snapSuffix)
+	}
+
+	return p
+}
+
+// want is the property's answer for a prefix list on version v: the digests of
+// the listed names that start with one of the prefixes; multi has one copy per
+// list line and per occurrence of the prefix (what the model proves,
+// hashes_multiplicity), set has each digest once (what the statement says).
+func (p *snapPlan) want(v int, prefs []string) (multi, set string) {
+	var m []string
+	for _, pr := range prefs {
+		m = append(m, p.byPref[v][pr]...)
+	}
+
+	return canonAnswer(m)
+}
+
+func canonAnswer(ans []string) (multi, set string) {
+	m := append([]string(nil), ans...)
+	sort.Strings(m)
+	var s []string
+	for i, h := range m {
+		if i == 0 || h != m[i-1] {
+			s = append(s, h)
+		}
+	}
+
+	return strings.Join(m, " "), strings.Join(s, " ")
+}
+
+// snapLookup is one question with the answer every version gives to it.
+type snapLookup struct {
+	kind  string // hashes: Storage.Hashes; mbp: Matcher.MatchByPrefix; txt: the middleware stack; matches: Storage.Matches
+	show  string
+	prefs []hashprefix.Prefix
+	name  string
+	multi []string
+	set   []string
+}
+
+func (p *snapPlan) lookups(kinds ...string) (ls []*snapLookup) {
+	for _, kind := range kinds {
+		switch kind {
+		case "hashes":
+			for _, q := range p.queries {
+				l := &snapLookup{kind: kind, show: strings.Join(q, " "), prefs: make([]hashprefix.Prefix, len(q))}
+				for k, pr := range q {
+					_, err := hex.Decode(l.prefs[k][:], []byte(pr))
+					hlib.Must(err)
+				}
+				for v := range p.texts {
+					m, s := p.want(v, q)
+					l.multi, l.set = append(l.multi, m), append(l.set, s)
+				}
+				ls = append(ls, l)
+			}
+		case "mbp", "txt":
+			for _, qn := range p.qnames {
+				l := &snapLookup{kind: kind, show: qn, name: qn}
+				req, ok := oraclePrefixes(strings.TrimSuffix(qn, snapSuffix))
+				if !ok {
+					panic("snapshot plan: malformed question name " + qn)
+				}
+				for v := range p.texts {
+					m, s := p.want(v, hlib.SortedKeys(req))
+					l.multi, l.set = append(l.multi, m), append(l.set, s)
+				}
+				ls = append(ls, l)
+			}
+		case "matches":
+			for _, n := range p.probes {
+				l := &snapLookup{kind: kind, show: n, name: n}
+				for v := range p.texts {
+					a := ""
+					if p.listed[v][n] > 0 {
+						a = "listed"
+					}
+					l.multi, l.set = append(l.multi, a), append(l.set, a)
+				}
+				ls = append(ls, l)
+			}
+		}
+	}
+
+	return ls
+}
+
+// snapFinding is a violation (or, with Model set, a difference with what the
+// model proves but the statement does not ask for) seen by the child process.
+type snapFinding struct {
+	Sig, What string
+	Input     map[string]any
+	Model     bool
+}
+
+// snapResult is what the child process of snapshotCampaign reports.
+type snapResult struct {
+	Findings []snapFinding  `json:"findings"`
+	Counts   map[string]int `json:"counts"`
+}
+
+// snapRun is one phase: one goroutine installs versions, the others look up.
+type snapRun struct {
+	e        *env
+	plan     *snapPlan
+	res      *snapResult
+	phase    string
+	mu       sync.Mutex
+	eff      []int // eff[k]: the version in force once install number k has returned (0: before the lookups start)
+	started  atomic.Int64
+	finished atomic.Int64
+	overlaps atomic.Int64
+	lookupsN atomic.Int64
+}
+
+func (s *snapRun) find(model bool, sig, what string, input map[string]any) {
+	s.mu.Lock()
+	defer s.mu.Unlock()
+	s.res.Counts["snap."+s.phase+".finding:"+sig+":"+fmt.Sprint(input["lookup"])]++
+	for _, f := range s.res.Findings {
+		if f.Sig == sig && f.Model == model {
+			return
+		}
+	}
+	input["phase"] = s.phase
+	s.res.Findings = append(s.res.Findings, snapFinding{Sig: sig, What: what, Input: input, Model: model})
+}
+
+// ask runs one lookup on the real code.  fault is "" when an answer came back.
+func (s *snapRun) ask(ctx context.Context, l *snapLookup) (ans []string, fault string) {
+	defer func() {
+		if v := recover(); v != nil {
+			fault = fmt.Sprintf("panic: %v", v)
+		}
+	}()
+	switch l.kind {
+	case "hashes":
+		return s.e.strg[0].Hashes(l.prefs), ""
+	case "mbp":
+		got, matched, err := s.e.matcher.MatchByPrefix(ctx, l.name)
+		if err != nil || !matched {
+			return nil, fmt.Sprintf("not answered: matched %v, error %v", matched, err)
+		}
+
+		return got, ""
+	case "txt":
+		req := &dns.Msg{}
+		req.SetQuestion(dns.Fqdn(l.name), dns.TypeTXT)
+		out := s.e.st.Serve(ctx, &stack.Req{
+			Server: s.e.st.Servers[0], Msg: req,
+			Remote: netip.MustParseAddrPort("192.0.2.7:5353"), Local: netip.MustParseAddrPort("192.0.2.1:53"),
+		})
+		if out.Err != nil || out.Resp == nil || out.Resp.Rcode != dns.RcodeSuccess || len(out.Resp.Answer) != 1 {
+			return nil, fmt.Sprintf("not answered: error %v, response %v", out.Err, out.Resp)
+		}
+		t, ok := out.Resp.Answer[0].(*dns.TXT)
+		if !ok {
+			return nil, fmt.Sprintf("not answered with a TXT record: %v", out.Resp.Answer[0])
+		}
+
+		return t.Txt, ""
+	default:
+		if s.e.strg[0].Matches(l.name) {
+			return []string{"listed"}, ""
+		}
+
+		return nil, ""
+	}
+}
+
+// check is the oracle: whatever the interleaving, a lookup is answered from one
+// version of the list, and that version was in force at some moment of the
+// lookup.  lo is the number of installs that had returned when the lookup began,
+// hi the number that had begun when it ended: the pointer the lookup loaded was
+// stored by one of the installs lo..hi (eff maps them to versions).
+func (s *snapRun) check(l *snapLookup, lo, hi int64, ans []string, fault string) {
+	var inForce []int
+	seen := map[int]bool{}
+	for k := lo; k <= hi && len(seen) < len(s.plan.texts); k++ {
+		if v := s.eff[k]; !seen[v] {
+			seen[v] = true
+			inForce = append(inForce, v)
+		}
+	}
+	sizes := func(vs []int) (o []string) {
+		for _, v := range vs {
+			n := 0
+			if l.multi[v] != "" {
+				n = strings.Count(l.multi[v], " ") + 1
+			}
+			o = append(o, fmt.Sprintf("version %d: %d", v, n))
+		}
+
+		return o
+	}
+	shown := ans
+	if len(shown) > 24 {
+		shown = shown[:24]
+	}
+	input := map[string]any{"lookup": l.kind, "input": l.show, "installs_overlapping": []int64{lo, hi},
+		"versions_in_force": inForce, "answer_sizes_of_versions_in_force": sizes(inForce), "answer_size": len(ans),
+		"answer_first": shown}
+	if fault == "" {
+		// How the answer differs from that of each version in force.
+		var diffs []string
+		for _, v := range inForce {
+			left := map[string]int{}
+			for _, h := range strings.Fields(l.multi[v]) {
+				left[h]++
+			}
+			extra := 0
+			for _, h := range ans {
+				if left[h] > 0 {
+					left[h]--
+				} else {
+					extra++
+				}
+			}
+			missing := 0
+			for _, n := range left {
+				missing += n
+			}
+			diffs = append(diffs, fmt.Sprintf("version %d: %d of its answers missing, %d that are not its answers", v, missing, extra))
+		}
+		input["difference_with_versions_in_force"] = diffs
+	}
+	what := fmt.Sprintf("%s(%s) while the list went through versions %v (answers of %s)", l.kind, trunc(l.show), inForce,
+		strings.Join(sizes(inForce), ", "))
+	if fault != "" {
+		sig := "hash-lookup-not-answered-during-reset"
+		if strings.HasPrefix(fault, "panic") {
+			sig = "hash-lookup-panicked-during-reset"
+		}
+		s.find(false, sig, what+": "+fault, input)
+
+		return
+	}
+	multi, set := canonAnswer(ans)
+	setOK := false
+	for _, v := range inForce {
+		if l.multi[v] == multi {
+			return
+		}
+		setOK = setOK || l.set[v] == set
+	}
+	if setOK {
+		s.find(true, "answer-repetitions-during-reset", what+fmt.Sprintf(
+			": %d answers, the right set but not once per list line and requested prefix", len(ans)), input)
+
+		return
+	}
+	for v := range s.plan.texts {
+		if l.set[v] == set {
+			input["answer_is_that_of_version"] = v
+			s.find(false, "lookup-answered-from-list-version-not-in-force", what+fmt.Sprintf(
+				": the answer (%d) is that of version %d", len(ans), v), input)
+
+			return
+		}
+	}
+	s.find(false, "lookup-answer-of-no-single-list-version-during-reset", what+fmt.Sprintf(
+		": %d answers, which is the answer of none of the versions of the list", len(ans)), input)
+}
+
+// run installs versions until enough lookups have overlapped an install (or
+// maxInstalls is reached), then checks every lookup on the final version.  The
+// number of rounds depends on timing, no verdict does.
+func (s *snapRun) run(install func(text string) error, ls []*snapLookup, rng *rand.Rand, readers, minInstalls, maxInstalls int, wantOverlaps int64) {
+	ctx := context.Background()
+	nVer := len(s.plan.texts)
+	seq := make([]int, maxInstalls+1)
+	s.eff = make([]int, maxInstalls+1)
+	for k := 1; k <= maxInstalls; k++ {
+		// Every other install goes back to the widest version, so that what a
+		// lookup counted before the swap and what it finds after it differ.
+		v := 0
+		if seq[k-1] == 0 || rng.IntN(2) == 0 {
+			v = (seq[k-1] + 1 + rng.IntN(nVer-1)) % nVer
+		}
+		seq[k], s.eff[k] = v, v
+		if s.plan.bad[v] {
+			s.eff[k] = s.eff[k-1]
+		}
+	}
+	hlib.Must(install(s.plan.texts[0]))
+
+	var done atomic.Bool
+	var wg sync.WaitGroup
+	for g := 0; g < readers; g++ {
+		wg.Add(1)
+		lrng := rand.New(rand.NewPCG(rng.Uint64(), uint64(g)))
+		go func() {
+			defer wg.Done()
+			for !done.Load() {
+				l := ls[lrng.IntN(len(ls))]
+				lo := s.finished.Load()
+				ans, fault := s.ask(ctx, l)
+				hi := s.started.Load()
+				s.check(l, lo, hi, ans, fault)
+				s.lookupsN.Add(1)
+				if s.finished.Load() > lo {
+					// An install returned, so the map was swapped, during the call.
+					s.overlaps.Add(1)
+				}
+			}
+		}()
+	}
+	k := 1
+	for ; k <= maxInstalls && (k <= minInstalls || s.overlaps.Load() < wantOverlaps); k++ {
+		s.started.Store(int64(k))
+		err := install(s.plan.texts[seq[k]])
+		s.finished.Store(int64(k))
+		if (err != nil) != s.plan.bad[seq[k]] {
+			s.find(false, "reset-outcome-wrong-during-lookups", fmt.Sprintf("install of version %d: error %v, scanner limit exceeded: %v",
+				seq[k], err, s.plan.bad[seq[k]]), map[string]any{"version": seq[k]})
+		}
+	}
+	done.Store(true)
+	wg.Wait()
+	last := int64(k - 1)
+	for _, l := range ls {
+		ans, fault := s.ask(ctx, l)
+		s.check(l, last, last, ans, fault)
+	}
+	s.mu.Lock()
+	s.res.Counts["snap."+s.phase+".installs"] += k - 1
+	s.res.Counts["snap."+s.phase+".lookups"] += int(s.lookupsN.Load())
+	s.res.Counts["snap."+s.phase+".lookups_overlapping_an_install"] += int(s.overlaps.Load())
+	s.mu.Unlock()
+}
+
+// snapChild runs in a process of its own (a lookup that panics in a goroutine of
+// the stack, or a data race on the map, kills the process).  Phase "reset":
+// Storage.Reset against Storage.Hashes, Matcher.MatchByPrefix and
+// Storage.Matches, where a lookup of many prefixes on the widest version spends
+// nearly all of its time between its first and its last look at the map, and
+// the installs that follow it are short; phase "refresh": Filter.Refresh from a
+// file against TXT questions through the production middleware stack.
+func snapChild() {
+	var seed uint64
+	scale := 1
+	fmt.Sscan(os.Getenv("VERIF_C11_SNAP"), &seed, &scale)
+	plan := newSnapPlan(seed, bucketFamilies(400000, 8))
+	dir, err := os.MkdirTemp("", "agdverif-c11s-")
+	hlib.Must(err)
+	defer func() { _ = os.RemoveAll(dir) }()
+	e := newEnv(dir, txtSuffixes, []int{0, 1})
+	res := &snapResult{Counts: map[string]int{}}
+	rng := rand.New(rand.NewPCG(seed, 0x5eed))
+	ctx := context.Background()
+
+	s1 := &snapRun{e: e, plan: plan, res: res, phase: "reset"}
+	s1.run(func(text string) error {
+		_, rerr := e.strg[0].Reset(text)
+
+		return rerr
+	}, plan.lookups("hashes", "hashes", "mbp", "matches"), rng, 4, 300*scale, 3000*scale, int64(2000*scale))
+
+	s2 := &snapRun{e: e, plan: plan, res: res, phase: "refresh"}
+	s2.run(func(text string) error {
+		hlib.Must(os.WriteFile(e.paths[0], []byte(text), 0o600))
+
+		return e.flt[0].Refresh(ctx)
+	}, plan.lookups("txt", "txt", "mbp", "hashes"), rng, 4, 60*scale, 400*scale, int64(300*scale))
+
+	out, err := json.Marshal(res)
+	hlib.Must(err)
+	fmt.Println("RESULT " + string(out))
+}
+
+// snapshotCampaign runs snapChild in processes of their own, with different
+// numbers of processors (with one, a lookup is interrupted in mid-call by the
+// scheduler and resumes many installs later), and puts the versions and
+// questions of every plan through the sequential operations as well, where the
+// real code is compared with the model.
+func snapshotCampaign(c *runner, rng *rand.Rand, procs, scale int, modelBudget int) {
+	fams := bucketFamilies(400000, 8)
+	for p := 0; p < procs; p++ {
+		seed := rng.Uint64()
+		plan := newSnapPlan(seed, fams)
+		snapSequential(c, plan, &modelBudget)
+
+		childEnv := fmt.Sprintf("VERIF_C11_SNAP=%d %d", seed, scale)
+		gmp := []string{"", "2", "1", "4"}[p%4]
+		cmd := exec.Command(os.Args[0])
+		cmd.Env = append(os.Environ(), childEnv)
+		if gmp != "" {
+			cmd.Env = append(cmd.Env, "GOMAXPROCS="+gmp)
+			childEnv += " GOMAXPROCS=" + gmp
+		}
+		out, err := cmd.CombinedOutput()
+		replay := map[string]any{"op": "lookups-during-resets", "child_env": childEnv, "rerun": childEnv + " .bin/c11",
+			"what": "one goroutine installs the list versions of newSnapPlan(seed), four look up; see snapChild"}
+		var res snapResult
+		found := false
+		for _, l := range strings.Split(string(out), "\n") {
+			if strings.HasPrefix(l, "RESULT ") && json.Unmarshal([]byte(l[7:]), &res) == nil {
+				found = true
+			}
+		}
+		if !found {
+			tail := string(out)
+			if len(tail) > 800 {
+				tail = tail[:800]
+			}
+			c.r.Violate("storage-crashed-under-concurrent-reset", fmt.Sprintf("lookups concurrent with resets killed the process (%v): %s", err, tail), replay)
+
+			continue
+		}
+		for _, f := range res.Findings {
+			rp := map[string]any{"run": replay, "failing_lookup": f.Input}
+			if f.Model {
+				c.r.Disagree("model-vs-impl:"+f.Sig, f.What, rp)
+			} else {
+				c.r.Violate(f.Sig, f.What, rp)
+			}
+		}
+		for k, n := range res.Counts {
+			c.r.Distribution[k] += n
+		}
+		c.r.Case("lookups-during-resets "+childEnv, res.Counts["snap.reset.lookups_overlapping_an_install"] > 0)
+	}
+}
+
+// snapSequential: the versions and questions of a plan, one after the other,
+// through the operations that compare the real code with the model and with
+// the sequential oracle.  The model hashes every listed name once per requested
+// prefix, so only as much as the budget (names x prefixes) allows is sent.
+func snapSequential(c *runner, plan *snapPlan, budget *int) {
+	c.opMatcherCfg()
+	sent := 0
+	for v, text := range plan.texts {
+		names := 0
+		for _, k := range plan.listed[v] {
+			names += k
+		}
+		if plan.bad[v] {
+			names = 3 // the model keeps the list before; the cost is that of the scan
+		}
+		cost := 0
+		for _, q := range plan.queries {
+			cost += (names + 1) * len(q) * 2
+		}
+		if cost > *budget {
+			continue
+		}
+		*budget -= cost
+		sent++
+		c.opReset(direct, text)
+		c.opReset(0, text)
+		for _, q := range plan.queries {
+			c.opHashes(direct, q)
+		}
+		for _, qn := range plan.qnames {
+			c.opMBP(qn)
+			c.opTXT(qn, dns.TypeTXT)
+		}
+		for _, n := range plan.probes[:min(4, len(plan.probes))] {
+			c.opMatches(0, n)
+		}
+		c.r.Count(fmt.Sprintf("snap.sequential.prefixes<=%d", 1<<bitsLen(len(plan.queries[0]))))
+	}
+	if sent > 0 {
+		c.finish("snapshot")
+	} else {
+		c.steps = c.steps[:0]
+		c.flags = map[string]bool{}
+	}
+}
+
+func bitsLen(n int) (b int) {
+	for ; n > 1; n >>= 1 {
+		b++
+	}
+
+	return b + 1
+}
+
 // tooLongCase: the scanner limit; a failed reset must leave the old list in
 // force.
 func tooLongCase(c *runner) {
@@ -1958,6 +2582,11 @@ func main() {
 
 		return
 	}
+	if os.Getenv("VERIF_C11_SNAP") != "" {
+		snapChild()
+
+		return
+	}
 	o := hlib.ParseFlags()
 	r := hlib.NewResult("C11", o)
 	r.Rule = "list: random list texts (comments, blanks, CRLF, duplicates, padded names) reset through Filter.Refresh, then " +
@@ -1966,7 +2595,10 @@ func main() {
 		"suffixes, up to five labels; shapes counted as subs.shape:*), compared with the Lean model and with an independent set/label oracle; txt: prefix strings " +
 		"(valid, legacy, malformed) through Matcher.MatchByPrefix and the production middleware stack; boundary: exhaustive " +
 		"base x depth x listed-parent x qtype grid; suffixrule: exhaustive private rule x {rule, parent, hosts below} x listed-parent " +
-		"x qtype grid; a list case is non-trivial when it has a listed and an unlisted verdict and a " +
+		"x qtype grid; snapshot: versions of one list differing in the number of names under each of 1-44 hash prefixes, installed by " +
+		"Storage.Reset / Filter.Refresh while Storage.Hashes, MatchByPrefix, TXT questions through the stack and Storage.Matches run in " +
+		"child processes (GOMAXPROCS default, 2, 1, 4): every answer must be the exact answer of a version in force during the call; " +
+		"a list case is non-trivial when it has a listed and an unlisted verdict and a " +
 		"true and a false Matches; distinct = distinct op logs"
 	m := hlib.StartModel(o.Model, "C11")
 	defer m.Close()
@@ -2011,6 +2643,11 @@ func main() {
 		nProc, nRounds = 12, 2000
 	}
 	concurrencyCampaign(c, o.Rand("conc"), nProc, nRounds)
+	nSnap, snapScale, snapBudget := 4, 1, 400000
+	if o.Thorough() {
+		nSnap, snapScale, snapBudget = 24, 3, 6000000
+	}
+	snapshotCampaign(c, o.Rand("snapshot"), nSnap, snapScale, snapBudget)
 
 	// A matcher with a single, different suffix and the third storage.
 	e2 := newEnv(dir, []string{".hp.example"}, []int{2})
